@@ -1115,3 +1115,10 @@ VARIANTS['C16'] += [
     V('neutral: pssh key ids read through a local',
       [(MP4F, "                rv[\"key_ids\"].append(r.get(16, 'kid'))", "                kid = r.get(16, 'kid')\n                rv[\"key_ids\"].append(kid)")], None),
 ]
+
+VARIANTS['C16'] += [
+    V('period.baseURL rewritten for every https request (fix 792946a reverted)',
+      [(MCTX, "        if opts.useBaseUrls and is_https_request():\n", "        if is_https_request():\n")], 'R16.14', 'create_period'),
+    V('neutral: https test first, BaseURL option second',
+      [(MCTX, "        if opts.useBaseUrls and is_https_request():\n", "        if is_https_request() and opts.useBaseUrls:\n")], None),
+]
